@@ -87,6 +87,20 @@ def probe(model, salt, etas="small", eps="small"):
 def flat(model, env, amounts=None):
     v, ode = P.run(model, env, amounts)
     out = {k: qj(x) for k, x in v.items()}
+    # the data columns and parameters the statements read belong to the model function's domain: a column must stay
+    # a column, a parameter must stay a parameter or become an assigned constant (replace_fixed_thetas)
+    try:
+        cols = set(model.datainfo.names)
+        pars = set(model.parameters.names)
+        for sym in model.statements.free_symbols:
+            if str(sym) in cols:
+                out[f"col:{sym}"] = [1, 1]
+            if str(sym) in pars:
+                out[f"par:{sym}"] = [1, 1]
+        for n in v:
+            out.setdefault(f"par:{n}", [1, 1])
+    except Exception:  # noqa: BLE001
+        pass
     if ode:
         for (a, b), val in ode["flows"].items():
             out[f"flow:{a}>{b}"] = qj(val)
@@ -248,8 +262,9 @@ def do_preserving(name, tok, m1, cx):
     y = yname(m1)
     for k in range(len(salts)):
         req.append(f"{k}|{y}")
-    req += [n for n, _ in before if n.split("|", 1)[1].split(":")[0] in ("flow", "lag", "bio", "dose", "dur", "rate")]
-    return m2, {"before": before, "after": after, "ren": [[f"{k}|{a}", f"{k}|{b}"] for a, b in ren.items() for k in range(len(salts))],
+    req += [n for n, _ in before if n.split("|", 1)[1].split(":")[0] in ("flow", "lag", "bio", "dose", "dur", "rate", "col")]
+    req += [n for n, _ in before if n.split("|", 1)[1].startswith("par:") and n.split("|", 1)[1][4:] in m1.parameters.names]
+    return m2, {"before": before, "after": after, "ren": [[f"{k}|{pre}{a}", f"{k}|{pre}{b}"] for a, b in ren.items() for k in range(len(salts)) for pre in ("", "par:")],
                 "req": req, "pairs": pairs}
 
 
@@ -512,7 +527,9 @@ def exec_history(arg):
         rec = {"model": name, "hist": hist[: i + 1], "act": tok, "class": tok[0], "prev": hist[i - 1] if i else "",
                "has_ode": _has_ode(m), "solved": "P:SOLVE" in hist[:i], "periph": "S:PER" in hist[:i],
                "depot": name == "mox2" or "S:FO" in hist[:i],
-               "fixed_omega": "D:ZEROOM" in hist[:i] and "P:NONRANDOM" not in hist[:i] and "P:CLEAN" not in hist[:i]}
+               "fixed_omega": "D:ZEROOM" in hist[:i] and "P:NONRANDOM" not in hist[:i] and "P:CLEAN" not in hist[:i],
+               "lag": "S:LAG" in hist[:i], "mu_before": "P:MU" in hist[:i],
+               "after_load": "P:LOAD" in hist[:i]}
         try:
             if cls in "SXD":
                 m2 = apply_other(name, tok, m)
@@ -738,8 +755,10 @@ def main(tier: str, seed: int) -> int:
                         v.notes.append(f"model_artefact: {c['model']} {c['hist'][: i + 1]} {field}")
                         continue
                     ev = traces[tid - 1]["events"][i]
-                    rec = {"model": c["model"], "hist": c["hist"][: i + 1], "act": tok, "prev": c["hist"][i - 1] if i else "",
-                           "field": field, "outcome": outcome, "seed": s, "diff": _diff(ev, field)}
+                    h = c["hist"]
+                    rec = {"model": c["model"], "hist": h[: i + 1], "act": tok, "class": tok[0], "prev": h[i - 1] if i else "",
+                           "field": field, "outcome": outcome, "seed": s, "diff": _diff(ev, field),
+                           "mu_before": "P:MU" in h[:i], "after_load": "P:LOAD" in h[:i], "solved": "P:SOLVE" in h[:i]}
                     v.violation(rec, f"{tok} after {c['hist'][:i]} on {c['model']}: {outcome} {json.dumps(rec['diff'])[:200]}")
     nontrivial = {json.dumps(c["hist"]) for c, _ in owners if len(c["hist"]) >= 2}
     v.add_coverage(
